@@ -95,6 +95,12 @@ func (r Resources) Validate(bucket string) error {
 		if !strings.HasPrefix(resource, bucket) {
 			return policyErrInvalidResource
 		}
+		// the bucket name has to end there: "bucket2/*" is not a resource
+		// of "bucket", only the bucket itself, its objects or a wildcard
+		// continuation are
+		if rest := resource[len(bucket):]; rest != "" && rest[0] != '/' && rest[0] != '*' && rest[0] != '?' {
+			return policyErrInvalidResource
+		}
 	}
 
 	return nil
